@@ -116,13 +116,13 @@ class Flow(object):
                 snames = pscope.names
                 if isinstance(self.scope, ClassScope):
                     return MergedDict(snames)
+                elif self.scope is self.scope.top:
+                    # module level code sees names bound via ``global`` in functions and,
+                    # like a class body, falls back to builtins for names it binds later
+                    return MergedDict(self.scope.top._global_names, snames)
                 else:
                     outer_names = set(snames).difference(self.scope.locals)
-                    names = {n: snames[n] for n in outer_names}
-                    if self.scope is self.scope.top:
-                        # module level code sees names bound via ``global`` in functions
-                        return MergedDict(self.scope.top._global_names, names)
-                    return names
+                    return {n: snames[n] for n in outer_names}
             else:
                 return {}
 
